@@ -37,6 +37,14 @@ namespace igris
 
     private:
         std::vector<value_type, Alloc> storage = {};
+        Compare _comp = {};
+
+        // Two keys name the same entry when neither orders before the other,
+        // as in std::map.
+        bool equivalent(const Key &a, const Key &b) const
+        {
+            return !_comp(a, b) && !_comp(b, a);
+        }
 
     public:
         flat_map() = default;
@@ -146,8 +154,8 @@ namespace igris
         T &operator[](const Key &key)
         {
             auto it = std::find_if(
-                storage.begin(), storage.end(), [&key](const value_type &p) {
-                    return p.first == key;
+                storage.begin(), storage.end(), [this, &key](const value_type &p) {
+                    return equivalent(p.first, key);
                 });
 
             if (it == storage.end())
@@ -162,8 +170,8 @@ namespace igris
         const T &operator[](const Key &key) const
         {
             auto it = std::find_if(
-                storage.begin(), storage.end(), [&key](const value_type &p) {
-                    return p.first == key;
+                storage.begin(), storage.end(), [this, &key](const value_type &p) {
+                    return equivalent(p.first, key);
                 });
 
             if (it == storage.end())
@@ -177,8 +185,8 @@ namespace igris
         T &at(const Key &key)
         {
             auto it = std::find_if(
-                storage.begin(), storage.end(), [&key](const value_type &p) {
-                    return p.first == key;
+                storage.begin(), storage.end(), [this, &key](const value_type &p) {
+                    return equivalent(p.first, key);
                 });
 
             if (it == storage.end())
@@ -192,8 +200,8 @@ namespace igris
         const T &at(const Key &key) const
         {
             auto it = std::find_if(
-                storage.begin(), storage.end(), [&key](const value_type &p) {
-                    return p.first == key;
+                storage.begin(), storage.end(), [this, &key](const value_type &p) {
+                    return equivalent(p.first, key);
                 });
 
             if (it == storage.end())
@@ -207,24 +215,24 @@ namespace igris
         iterator find(const Key &key)
         {
             return std::find_if(
-                storage.begin(), storage.end(), [&key](const value_type &p) {
-                    return p.first == key;
+                storage.begin(), storage.end(), [this, &key](const value_type &p) {
+                    return equivalent(p.first, key);
                 });
         }
 
         const_iterator find(const Key &key) const
         {
             return std::find_if(
-                storage.begin(), storage.end(), [&key](const value_type &p) {
-                    return p.first == key;
+                storage.begin(), storage.end(), [this, &key](const value_type &p) {
+                    return equivalent(p.first, key);
                 });
         }
 
         size_type count(const Key &key) const
         {
             return std::count_if(
-                storage.begin(), storage.end(), [&key](const value_type &p) {
-                    return p.first == key;
+                storage.begin(), storage.end(), [this, &key](const value_type &p) {
+                    return equivalent(p.first, key);
                 });
         }
 
@@ -234,7 +242,9 @@ namespace igris
             auto it = std::find_if(
                 storage.begin(),
                 (iterator)storage.end(),
-                [&key](const value_type &p) { return p.first == key; });
+                [this, &key](const value_type &p) {
+                    return equivalent(p.first, key);
+                });
             if (it != storage.end())
             {
                 return std::make_pair(it, false);
@@ -247,8 +257,8 @@ namespace igris
         {
             auto it = std::find_if(storage.begin(),
                                    (iterator)storage.end(),
-                                   [&value](const value_type &p) {
-                                       return p.first == value.first;
+                                   [this, &value](const value_type &p) {
+                                       return equivalent(p.first, value.first);
                                    });
             if (it != storage.end())
             {
@@ -258,8 +268,8 @@ namespace igris
                 std::upper_bound(storage.begin(),
                                  (iterator)storage.end(),
                                  value,
-                                 [](const value_type &a, const value_type &b) {
-                                     return a.first < b.first;
+                                 [this](const value_type &a, const value_type &b) {
+                                     return _comp(a.first, b.first);
                                  }),
                 value);
         }
